@@ -41,9 +41,11 @@ impl From<syn::Ident> for Expr {
 
 impl Parse for Expr {
     fn parse(input: ParseStream) -> syn::Result<Self> {
+        // Keywords (`true`, `self`, `return`, ...) are not identifiers, so `peek()` them out.
+        let is_ident = input.peek(syn::Ident);
         if let Ok(ident) = input.step(|c| {
             c.ident()
-                .filter(|(_, c)| c.eof() || punct(',')(*c).is_some())
+                .filter(|(_, c)| is_ident && (c.eof() || punct(',')(*c).is_some()))
                 .ok_or_else(|| syn::Error::new(c.span(), "expected `ident(,|eof)`"))
         }) {
             Ok(Self::Ident(ident))
